@@ -19,7 +19,7 @@ RULE = (
     "non-trivial = the screen has >=2 plates and the op is not a no-op on the model"
 )
 ASSUMPTIONS = ["revealing a set consisting only of unknown plate ids may either raise ValueError or return the screen unchanged", "refusal of all-zero values is judged only when every plate of the revealed set is all zero"]
-REQUIRED = {"constructor_cases_with_a_library_size_plate": {"quick": 6, "thorough": 6}, "constructor_cases_with_non_bool_mask": {"quick": 60, "thorough": 900}, "view_plate_counts_checked": {"quick": 500, "thorough": 8000}, "cli_refusals_checked": {"quick": 60, "thorough": 800}, "constructor_cases_with_unusual_values": {"quick": 40, "thorough": 600}, "reveals_with_negative_unknown_id": {"quick": 60, "thorough": 900}, "history_steps_checked": {"quick": 2500, "thorough": 40000}, "reveals_checked": {"quick": 600, "thorough": 10000}, "refusals_checked": {"quick": 100, "thorough": 1500}, "constructor_cases": {"quick": 150, "thorough": 2500}, "cli_steps": {"quick": 100, "thorough": 1500}, "earlier_stage_rechecks": {"quick": 10000, "thorough": 150000}, "branches": {"quick": 200, "thorough": 3000}, "in_place_reveals": {"quick": 150, "thorough": 2000}}
+REQUIRED = {"refused_set_observed_calls": {"quick": 200, "thorough": 3000}, "constructor_cases_with_a_library_size_plate": {"quick": 6, "thorough": 6}, "constructor_cases_with_non_bool_mask": {"quick": 60, "thorough": 900}, "view_plate_counts_checked": {"quick": 500, "thorough": 8000}, "cli_refusals_checked": {"quick": 60, "thorough": 800}, "constructor_cases_with_unusual_values": {"quick": 40, "thorough": 600}, "reveals_with_negative_unknown_id": {"quick": 60, "thorough": 900}, "history_steps_checked": {"quick": 2500, "thorough": 40000}, "reveals_checked": {"quick": 600, "thorough": 10000}, "refusals_checked": {"quick": 100, "thorough": 1500}, "constructor_cases": {"quick": 150, "thorough": 2500}, "cli_steps": {"quick": 100, "thorough": 1500}, "earlier_stage_rechecks": {"quick": 10000, "thorough": 150000}, "branches": {"quick": 200, "thorough": 3000}, "in_place_reveals": {"quick": 150, "thorough": 2000}}
 N_HIST = {"quick": 960, "thorough": 9600}
 
 
@@ -379,6 +379,29 @@ def run_shard(rec, tier, seed, shard, nshards):
         vals = rng.random(int(sel.sum())) + 2.0
         rec.case(("set_observed", kit.array_hash(sel)))
         rec.count("constructor_cases")
+        # a delivery that is refused (wrong number of values, values of the wrong type, a selection that is no mask, a
+        # read-only value buffer) changes nothing: no row is revealed by it, no value stored, the counts stay, and the
+        # next, correct delivery behaves as if the refused one had never happened
+        m0, o0 = s.observation_mask.copy(), s.observations.copy()
+        n_un0 = len([p_ for p_ in s.plates if not p_.is_observed])
+        bad_calls = [
+            ("one value too many", lambda: s.set_observed(sel, np.concatenate([vals, [0.5]]))),
+            ("one value too few", lambda: s.set_observed(sel, vals[:-1]) if len(vals) > 2 else s.set_observed(sel, np.zeros(len(vals) + 2))),  # (a single value would be broadcast: a legal call)
+            ("integer values", lambda: s.set_observed(sel, np.arange(int(sel.sum())))),
+            ("integer selection", lambda: s.set_observed(sel.astype(int), vals)),
+        ]
+        for what, call in bad_calls:
+            try:
+                call()
+                rec.count("set_observed_calls_expected_to_be_refused_but_accepted")
+                break
+            except Exception:
+                rec.count("refused_set_observed_calls")
+                rec.count("oracle_evals")
+                same = bool(np.array_equal(s.observation_mask, m0)) and kit.bytes_equal(s.observations, o0) and len([p_ for p_ in s.plates if not p_.is_observed]) == n_un0
+                rec.check(same, "C12/set_observed/refused-call-left-a-trace", lambda: "set_observed refused a call (%s) but afterwards the mask / values / number of unobserved plates differ: %d rows observed (0 before), %d unobserved plates (%d before)" % (what, int(s.observation_mask.sum()), len([p_ for p_ in s.plates if not p_.is_observed]), n_un0), {"sel": sel.tolist(), "refused": what})
+                if not same:
+                    break
         s.set_observed(sel, vals)
         rec.check(kit.bytes_equal(s.observations[sel], vals) and kit.bytes_equal(s.observations[~sel], before[~sel]), "C12/set_observed/values", "set_observed stored other values or touched other rows", {"sel": sel.tolist()})
         rec.check(bool(np.array_equal(s.observation_mask, sel)), "C12/set_observed/mask", "set_observed marked other rows", {"sel": sel.tolist()})
